@@ -624,6 +624,63 @@ def seek_discipline(ctx):
             ctx.ok(rid, p_, "every poll seeks to the committed position before the reader runs")
 
 
+def trr_byte_order(ctx, rid="R-13.10", what=""):
+    """TRR byte order: the magic number is read big-endian; exactly when it is not the GROMACS
+    magic, the byte order used for every later read of the header is exchanged. On the CFG of
+    read_trr_header: from the `magic != MAGIC` edge every path to the next read passes
+    `endian = swap_endian(endian)`; from the `magic == MAGIC` edge no path does."""
+    f = ctx.tree.func(GROMACS, "read_trr_header")
+    cfg = cfg_of(f)
+    reads = [st for st in walk_local(f) if isinstance(st, ast.Assign) and any(isinstance(c, ast.Call) and last_name(c) == "read_struct_buff" for c in ast.walk(st.value))]
+    if len(reads) < 2:
+        raise AnalysisError(f"{rid}: read_trr_header has fewer than two read_struct_buff reads (cannot decide)")
+    first = min(reads, key=lambda st: st.lineno)
+    if not (len(first.targets) == 1 and isinstance(first.targets[0], ast.Name)):
+        raise AnalysisError(f"{rid}: the magic number is not read into a name")
+    M = first.targets[0].id
+    later = [cfg.node_of(st) for st in reads if st is not first]
+    swaps = [cfg.node_of(st) for st in walk_local(f) if isinstance(st, ast.Assign) and isinstance(st.value, ast.Call) and last_name(st.value) == "swap_endian"]
+    if not swaps:
+        ctx.bad(rid, f, "read_trr_header never exchanges the byte order: little-endian TRR files are parsed as big-endian" + what, construct="read_trr_header: no swap_endian")
+        return
+
+    def magic_fact(e):
+        o = oriented(e, lambda x: isinstance(x, ast.Name) and x.id == M)
+        if o is None or not isinstance(o[1], (ast.Eq, ast.NotEq)) or "MAGIC" not in ast.unparse(o[2]).upper():
+            return None
+        return isinstance(o[1], ast.Eq)
+
+    branches = []
+    for n in cfg.nodes:
+        if n.kind != "branch":
+            continue
+        for e, truth in n.facts:
+            mf = magic_fact(e)
+            if mf is None:
+                continue
+            # the test must see the value as read (no reassignment of the magic before it)
+            branches.append((n, mf == truth))
+    if not branches:
+        raise AnalysisError(f"{rid}: no test of the magic number against the GROMACS magic found (cannot decide)")
+    # the outermost test: its branch nodes are not dominated by another magic branch
+    ids = {b.id for b, _ in branches}
+    outer = [(b, eq) for b, eq in branches if not (set(cfg.dom.get(b.id, ())) & (ids - {b.id}))]
+    for b, equal in outer:
+        if equal:
+            reach = cfg.reachable(b, avoid=later)
+            hit = [s for s in swaps if s.id in reach]
+            if hit:
+                ctx.bad(rid, hit[0].ast, f"read_trr_header exchanges the byte order although the magic number matched as read: big-endian TRR files are decoded with the wrong byte order{what}", construct="read_trr_header: swap on the matching side")
+            else:
+                ctx.ok(rid, b.ast, "magic number matches as read: the byte order is kept")
+        else:
+            bad = [r for r in later if cfg.reaches(b, r, avoid=swaps)]
+            if bad:
+                ctx.bad(rid, bad[0].ast, f"read_trr_header can reach `{short(bad[0].ast, 50)}` from the `magic number differs` edge without `endian = swap_endian(endian)`: a TRR file that is merely little-endian is parsed as big-endian (the string length decodes to 218103808 and the read raises), although the reader supports both byte orders{what}", construct="read_trr_header: mismatching magic without byte-order swap")
+            else:
+                ctx.ok(rid, b.ast, "magic number differs as read: every path to the next read exchanges the byte order")
+
+
 def run(ctx):
     ctx.rule("R-13.6", "line-index arithmetic never divides by a block size that still holds its zero initialiser (no exception on a partial first line)", floor=1)
     ctx.rule("R-13.5", "the byte count that gates the first TRR header read covers the largest header (struct formats of read_trr_header, double precision)", floor=1)
@@ -647,9 +704,13 @@ def run(ctx):
     ctx.attempt(trr_head_size, ctx)
     ctx.rule("R-13.9", "every poll of an on-the-fly reader starts at the committed position (no other seek on a path to the reader)", floor=1)
     ctx.attempt(seek_discipline, ctx)
+    ctx.rule("R-13.10", "TRR byte order: swapped exactly when the magic number read big-endian differs from the GROMACS magic (both byte orders are read while mdrun runs)", floor=2)
+    ctx.attempt(trr_byte_order, ctx)
 
 
 VARIANTS = [
+    B("c13-trr-swap-only-when-unrecognised", GROMACS, "        if not magic == _GROMACS_MAGIC:\n            logger.critical(\n                \"TRR file might be inconsistent! Could find _GROMACS_MAGIC\"\n            )\n        endian = swap_endian(endian)\n", "        if not magic == _GROMACS_MAGIC:\n            logger.critical(\n                \"TRR file might be inconsistent! Could find _GROMACS_MAGIC\"\n            )\n            endian = swap_endian(endian)\n", "R-13.10", control=True, why="seeded C13_k"),
+    K("c13-keep-trr-magic-test-inverted", GROMACS, "    if magic == _GROMACS_MAGIC:\n        pass\n    else:\n        magic = swap_integer(magic)\n        if not magic == _GROMACS_MAGIC:\n            logger.critical(\n                \"TRR file might be inconsistent! Could find _GROMACS_MAGIC\"\n            )\n        endian = swap_endian(endian)\n", "    if magic != _GROMACS_MAGIC:\n        if swap_integer(magic) != _GROMACS_MAGIC:\n            logger.critical(\n                \"TRR file might be inconsistent! Could find _GROMACS_MAGIC\"\n            )\n        endian = swap_endian(endian)\n"),
     B("c13-poll-skips-to-end-when-size-unchanged", ENGPARTS, "                self.file_object.seek(self.current_position)\n", "                if os.path.getsize(self.file_path) == getattr(self, \"_size\", -1):\n                    self.file_object.seek(0, 2)\n                else:\n                    self.file_object.seek(self.current_position)\n                self._size = os.path.getsize(self.file_path)\n", "R-13.9", control=True, why="seeded C13_i"),
     B("c13-trr-data-size-from-first-header", GROMACS, '                        if first_header:\n                            logger.debug("TRR header was: %i", new_bytes)\n                            first_header = False\n                        # Calculate the size of the data:\n                        self.data_size = sum(\n                            header[key] for key in TRR_DATA_ITEMS\n                        )\n', '                        if first_header:\n                            self.data_size = sum(\n                                header[key] for key in TRR_DATA_ITEMS\n                            )\n                            logger.debug("TRR header was: %i", new_bytes)\n                            first_header = False\n', "R-13.3", why="seeded C13_g"),
     B("c13-trr-give-up-on-stale-size", GROMACS, "                                if (\n                                    self.check_poll() is not None\n                                    and os.path.getsize(self.trr_file)\n                                    < self.bytes_read + self.data_size\n                                ):", "                                if self.check_poll() is not None:", "R-13.8", control=True, why="seeded C13_e"),
